@@ -53,7 +53,35 @@ def _sched(claim, props, monitors):
             "nontrivial": {"sched": _sched_nontrivial}, "rule": SCHED_RULE, "assumptions": SCHED_ASSUME,
             "trusted_base": SCHED_TB, "monitors": monitors + ["traceConsistent"]}
 
+def _db_nontrivial(case, impl):
+    t = case.split(" ", 3)
+    if t[0] == "dbr":
+        # non-trivial: the cut is inside the log body (not at 0 / full length)
+        return 8 < int(t[2]) < len(t[1]) // 2
+    return True
+
+DB_RULE = ("150 (quick) / 3000 (thorough) logs written by the REAL Writer for random graphs (1-4 steps, 1-3 outputs, names "
+           "incl. 100-300 byte and UTF-8 paths, 0-4 or 255/256/257/300 discovered deps, hashes incl. u64::MAX); every log "
+           "is cut at EVERY byte position (sampled 49 positions when longer than 400 bytes) and each prefix is opened "
+           "by the REAL db::open against the same or a re-generated graph (outputs moved between steps / dropped), "
+           "then one more record is appended through the returned Writer and the file re-read. Non-trivial = cut "
+           "strictly inside the record area; distinct by case text")
+DB_ASSUME = COMMON_ASSUME + [
+    "an append of n bytes that is cut short persists a prefix of those bytes (no reordering or garbage from the file system); O_APPEND semantics; set_len truncates",
+    "records beyond the field widths (>= 32768 outputs, >= 65536 deps, ids >= 2^24, names >= 32768 bytes) are excluded by the `fits` hypothesis; the writer writes nothing for over-wide counts (F7 repaired) and panics for the id/name limits",
+]
+DB_TB = ["db.rs modelled completely at byte level: record encoding, read_signature/read_file/read_path/read_build, IdMap, ensure_id, write_build, open's truncate-then-append",
+         "hash values are opaque u64 here"]
+
 PROPS = {
+    "C07": {"claim": "Lean 4 theorems for ALL record lists within the field widths and ALL cut points: a complete record is read back exactly whatever follows; a record of which only k < len bytes were written is not read at all; hence parse(log ++ torn tail) = exactly the complete records with their length as the intact prefix; a torn signature is an empty log; after truncating to the intact prefix and appending, the file parses to survivors ++ new records (so it stays loadable for ever). Tied to the real db.rs by byte-exact comparison of written logs and by opening EVERY byte prefix of each log with the real db::open (then appending and re-reading); monitors startsNormally / survivorsExact / laterLoadable are evaluated in Lean against the specification 'records wholly inside the first k bytes'.",
+            "props": ["C07"], "modes": ["db"], "level": "proof", "nontrivial": {"db": _db_nontrivial},
+            "rule": DB_RULE, "assumptions": DB_ASSUME, "trusted_base": DB_TB,
+            "monitors": ["startsNormally", "survivorsExact", "laterLoadable"]},
+    "C08": {"claim": "Lean 4 theorems: a record is attributed to a step iff it names at least one output and EVERY output it names is currently produced by that step (soundness and completeness of the attribution fold, F6 repaired), so moved or dropped outputs make a record unusable rather than misapplied; the latest attributed record is the one in force; record round trip for any shapes within the field widths; over-wide records are not written (F7 repaired). Ids are resolved through names only. Tied to the real db.rs by loading real logs against re-generated graphs over the same names; monitor attributionOk evaluated in Lean on what the real reader attached.",
+            "props": ["C08"], "modes": ["db"], "level": "proof", "nontrivial": {"db": _db_nontrivial},
+            "rule": DB_RULE, "assumptions": DB_ASSUME, "trusted_base": DB_TB,
+            "monitors": ["attributionOk", "survivorsExact"]},
     "C01": _sched("Lean 4 theorems about the scheduler model: the readiness gate admits a build only when every producer of an ordering input is Done; everything ready_dependents promotes passed it; the gating invariant is preserved by every state transition; validation edges do not enter readiness; the want phase never resets a queued/running/finished build (joint induction over the mutually recursive want functions, covering re-entrancy). The model is tied to the real Work/Runner by exact equality of full transition traces on random graphs x schedules, and the monitors startsAfterDeps (all transitive ordering producers Done before a start) and startsOnce are evaluated in Lean on the implementation's trace.",
                   ["C01"], ["startsAfterDeps", "startsOnce"]),
     "C04": _sched("Lean 4 theorems: pop_queued only hands out builds from a pool with room; the start loop never exceeds -j; per-pool running counters equal the number of Running builds of that pool across every transition; pool names are distinct with declared pools overriding built-ins; an undeclared pool is an error at enqueue time. Tied to the real scheduler by trace equality; monitor withinLimits (running set <= -j and <= depth per pool at every start) evaluated on the implementation's trace.",
